@@ -27,6 +27,12 @@ type c03Case struct {
 	Session    uint32  `json:"session"`
 	N          int     `json:"n"`    // body length
 	Tile       model.B `json:"tile"` // body content pattern
+	// client-write only: how the caller builds and sends the packet.  Build "options" = NewPacket with
+	// header then body (length filled in); "literal" = a Packet literal whose Header.Length is whatever
+	// StaleLen says (the client must go by the body, not by a stale length).  Via "send" | "send-only".
+	Build    string `json:"build,omitempty"`
+	StaleLen int    `json:"stale_len,omitempty"`
+	Via      string `json:"via,omitempty"`
 }
 
 // body builds a cleartext of exactly n bytes that is length-consistent under the authentication
@@ -110,6 +116,11 @@ func genC03(t *rapid.T) c03Case {
 		c.Seq = byte(rapid.OneOf(rapid.SampledFrom([]int{1, 3, 251, 253}), rapid.Map(rapid.IntRange(0, 126), func(i int) int { return 2*i + 1 })).Draw(t, "seq"))
 	case "client-read":
 		c.Seq = byte(rapid.OneOf(rapid.SampledFrom([]int{2, 4, 254}), rapid.Map(rapid.IntRange(1, 127), func(i int) int { return 2 * i })).Draw(t, "seq"))
+	}
+	if c.Dir == "client-write" {
+		c.Build = rapid.SampledFrom([]string{"options", "literal", "literal"}).Draw(t, "build")
+		c.StaleLen = rapid.SampledFrom([]int{0, 0, 5, c.N + 20, 65536}).Draw(t, "stale_len")
+		c.Via = rapid.SampledFrom([]string{"send", "send-only"}).Draw(t, "via")
 	}
 	c.PeerSecret = c.Secret
 	if c.Flags&model.FlagUnencrypted != 0 && rapid.Bool().Draw(t, "different_peer_secret") {
@@ -227,9 +238,19 @@ func runC03(t failer, c c03Case) {
 		lh := libHeader(reqH)
 		lh.Length = 0 // Send fills it in
 		pkt := tq.NewPacket(tq.SetPacketHeader(lh), tq.SetPacketBody(append([]byte{}, reqClear...)))
+		if c.Build == "literal" {
+			lh.Length = uint32(c.StaleLen)
+			pkt = &tq.Packet{Header: lh, Body: append([]byte{}, reqClear...)}
+		}
 		var resp *tq.Packet
 		var serr error
-		if p := catch(func() { resp, serr = cl.Send(pkt) }); p != nil {
+		if p := catch(func() {
+			if c.Via == "send-only" {
+				serr = cl.SendOnly(pkt)
+			} else {
+				resp, serr = cl.Send(pkt)
+			}
+		}); p != nil {
 			fail("panic", "Client.Send panics: %v", p)
 		}
 		out, _ := conn.Written()
@@ -278,6 +299,12 @@ func firstDiff(a, b []byte) int {
 
 func classifyC03(c c03Case) {
 	ev.Class("dir:" + c.Dir)
+	if c.Via == "send-only" {
+		ev.Class("client:SendOnly")
+	}
+	if c.Build == "literal" {
+		ev.Class("client:packet-literal-with-stale-length")
+	}
 	switch {
 	case c.N == 0:
 		ev.Class("len:0")
